@@ -113,22 +113,22 @@ theorem siteParams_pin : Gen.StatsSites.siteParams = [("Counter_Snapshot_c0", ["
   ("saturatedAdd_r0", []),
   ("saturatedAdd_r1", ["s"])] := by rfl
 
-theorem shape_pin : Gen.StatsSites.shape = [("NewCounter", [0, 0, 0, 1, 0, 0]),
-  ("Counter_Snapshot", [1, 0, 2, 1, 0, 0]),
-  ("Counter_RecordHits", [0, 0, 0, 0, 0, 0]),
-  ("Counter_RecordMisses", [0, 0, 0, 0, 0, 0]),
-  ("Counter_RecordEviction", [0, 0, 0, 0, 0, 0]),
-  ("Counter_RecordLoadSuccess", [0, 0, 0, 0, 0, 0]),
-  ("Counter_RecordLoadFailure", [0, 0, 0, 0, 0, 0]),
-  ("Stats_Requests", [0, 0, 0, 1, 0, 0]),
-  ("Stats_HitRatio", [1, 0, 1, 2, 0, 0]),
-  ("Stats_MissRatio", [1, 0, 1, 2, 0, 0]),
-  ("Stats_Loads", [0, 0, 0, 1, 0, 0]),
-  ("Stats_LoadFailureRatio", [1, 0, 1, 2, 0, 0]),
-  ("Stats_AverageLoadPenalty", [2, 0, 1, 3, 0, 0]),
-  ("Stats_Minus", [0, 0, 0, 1, 0, 0]),
-  ("Stats_Plus", [0, 0, 1, 1, 0, 0]),
-  ("subtract", [1, 0, 0, 2, 0, 0]),
-  ("saturatedAdd", [1, 0, 1, 2, 0, 0])] := by rfl
+theorem shape_pin : Gen.StatsSites.shape = [("NewCounter", [0, 0, 0, 1, 0, 0, 0]),
+  ("Counter_Snapshot", [1, 0, 2, 1, 0, 0, 0]),
+  ("Counter_RecordHits", [0, 0, 0, 0, 0, 0, 0]),
+  ("Counter_RecordMisses", [0, 0, 0, 0, 0, 0, 0]),
+  ("Counter_RecordEviction", [0, 0, 0, 0, 0, 0, 0]),
+  ("Counter_RecordLoadSuccess", [0, 0, 0, 0, 0, 0, 0]),
+  ("Counter_RecordLoadFailure", [0, 0, 0, 0, 0, 0, 0]),
+  ("Stats_Requests", [0, 0, 0, 1, 0, 0, 0]),
+  ("Stats_HitRatio", [1, 0, 1, 2, 0, 0, 0]),
+  ("Stats_MissRatio", [1, 0, 1, 2, 0, 0, 0]),
+  ("Stats_Loads", [0, 0, 0, 1, 0, 0, 0]),
+  ("Stats_LoadFailureRatio", [1, 0, 1, 2, 0, 0, 0]),
+  ("Stats_AverageLoadPenalty", [2, 0, 1, 3, 0, 0, 0]),
+  ("Stats_Minus", [0, 0, 0, 1, 0, 0, 0]),
+  ("Stats_Plus", [0, 0, 1, 1, 0, 0, 0]),
+  ("subtract", [1, 0, 0, 2, 0, 0, 0]),
+  ("saturatedAdd", [1, 0, 1, 2, 0, 0, 0])] := by rfl
 
 end OtterVerif.Pin.StatsSites
